@@ -89,6 +89,8 @@ def build(cfg, seed):
     for c, cons in cfg["shells"]:
         nexp = max(rng.choice([1, 2, 3]), max(cons.count(t) for t in cons))   # repeated types need independent contractions
         exps = sorted((round(10 ** rng.uniform(-0.7, 1.2), 6) for _ in range(nexp)), reverse=True)
+        if rng.random() < 0.5:
+            rng.shuffle(exps)                             # the order of the primitives of a contraction carries no meaning
         coeffs = [[round(rng.uniform(0.2, 1.0) * rng.choice([1, 1, -1]), 6) for _ in cons] for _ in range(nexp)]
         shells.append(Shell(c, [t[0] for t in cons], [t[1] for t in cons], exps, coeffs))
     obasis = MolecularBasis(shells, conventions(cfg["conv"], rng), "L2")
@@ -108,7 +110,10 @@ def build(cfg, seed):
         occs[: min(2, norb)] = 1.0
         occs[norb: norb + 1] = 1.0
         en = np.concatenate([np.sort([round(rng.uniform(-3, 2), 6) for _ in range(norb)]), np.sort([round(rng.uniform(-3, 2), 6) for _ in range(norb)])])
-        mo = MolecularOrbitals("unrestricted", norb, norb, occs, np.concatenate([ca, cb], axis=1), en)
+        cab = np.concatenate([ca, cb], axis=1)
+        if seed % 3 == 1:
+            cab = np.asfortranarray(cab)                 # the memory layout of the coefficient matrix is the caller's business
+        mo = MolecularOrbitals("unrestricted", norb, norb, occs, cab, en)
     else:
         c = orthonormal_orbitals(rng, obasis, atcoords, norb)
         occs = np.zeros(norb)
@@ -128,13 +133,19 @@ def build(cfg, seed):
         en = np.sort([round(rng.uniform(-3, 2), 6) for _ in range(norb)])
         if cfg.get("big"):
             en[0] = -1234.5678   # a core orbital energy beyond -1000 hartree
+        if seed % 3 == 1:
+            c = np.asfortranarray(c)
+        elif seed % 3 == 2:
+            big = np.zeros((2 * c.shape[0], 2 * c.shape[1]))
+            big[::2, ::2] = c
+            c = big[::2, ::2]                            # a strided view
         mo = MolecularOrbitals("restricted", norb, norb, occs, c, en, None, amb)
     kw = dict(atnums=atnums, atcoords=atcoords, atcorenums=atcorenums, obasis=obasis, mo=mo, energy=-3.25 * natom, title="c01 wavefunction",
               lot="RHF", obasis_name="custom")
     if cfg.get("rdms") and kind != "generalized":
         # a symmetric matrix in the conventions of the source object (not necessarily the SCF density: it is stored data)
         m = np.array([[0.3 + 0.1 * min(a, b) + 0.01 * max(a, b) for b in range(nb)] for a in range(nb)])
-        kw["one_rdms"] = {"scf": m}
+        kw["one_rdms"] = {"scf": np.asfortranarray(m) if seed % 2 else m}
     return IOData(**kw)
 
 
